@@ -137,6 +137,23 @@ def report(P, prop, seed, idx, ops, v, baseline, known_clauses, main):
     if not fails(cand0):
         cand0 = ops
     small, ntests = shrink.ddmin(cand0, fails, budget_s=P.shrink_budget)
+    if len(small) > 12:
+        # long histories: positional paths keep plain ddmin from dropping elder siblings; drop them with renumbering
+        def fails_ev(c):
+            m2, vr2 = judges.evaluate(prop, c, REPO, P.opts)
+            if not any(x['clause'] == clause for x in vr2):
+                return False
+            if baseline and clause in known_clauses:
+                _b, vb = judges.evaluate(prop, c, baseline, P.opts)
+                _k, nw = judges.split_known(prop, [x for x in vr2 if x['clause'] == clause], vb, known_clauses)
+                if not nw:
+                    return False
+            return m2['events']
+        m0, _v0 = judges.evaluate(prop, small, REPO, P.opts)
+        small, n2 = shrink.shrink_siblings(small, m0['events'], fails_ev, budget_s=P.shrink_budget * 2)
+        ntests += n2
+        small, n3 = shrink.ddmin(small, fails, budget_s=P.shrink_budget / 2)
+        ntests += n3
     m, vr = judges.evaluate(prop, small, REPO, P.opts)
     vv = [x for x in vr if x['clause'] == clause]
     obs = vv[0] if vv else v
